@@ -43,9 +43,9 @@ def prepare_for_rewriting(module: gtirb.Module, nop: bytes) -> Iterator[None]:
     else:
         assign_integral_symbols(module)
 
-    alignment = (
-        {} if module.file_format == gtirb.Module.FileFormat.ELF else None
-    )
+    # Without a table now, joining looks for one that a patch may have
+    # created in the meantime.
+    alignment = None
     if _auxdata.alignment.exists(module):
         alignment = _auxdata.alignment.get_or_insert(module)
 
